@@ -16,65 +16,76 @@ def run_job(orch, j):
             return r
 
 
+def evaluate(doc, orch):
+    """re-execute a replay document; returns {"reproduced": bool, "detail": str, "sig": str, "harness": str|None}"""
+    oracle = doc.get("oracle")
+    if oracle == "golden_equality":
+        g = dict(doc["golden"]); g["args"] = dict(g["args"], want=["files"])
+        r = dict(doc["run"]); r["args"] = dict(r["args"], want=["files"])
+        i1 = orch.submit(g["hashseed"], g["fn"], g["args"])
+        i2 = orch.submit(r["hashseed"], r["fn"], r["args"])
+        out = orch.run_all()
+        a, b = out[i1][1], out[i2][1]
+        if not (a.get("ok") and b.get("ok")):
+            return {"reproduced": False, "detail": "", "sig": "harness", "harness": "%s %s" % (a.get("err"), b.get("err"))}
+        from simkit import outputs
+        if b["res"].get("no_crash"):
+            return {"reproduced": False, "detail": "fault not reached", "sig": "nocrash", "harness": None}
+        fa = {k: v.encode() for k, v in a["res"]["files"].items()}
+        fb = {k: v.encode() for k, v in b["res"]["files"].items()}
+        d = outputs.diff(fa, fb)
+        sig = "differs" if d else "equal"
+        if a["res"]["exit"] != b["res"]["exit"]:
+            d.append("exit codes differ: %s vs %s (%s)" % (a["res"]["exit"], b["res"]["exit"], b["res"].get("failure_site")))
+            d.append(b["res"].get("log_tail", ""))
+            sig = "exit:%s" % (b["res"].get("failure_site") or b["res"]["exit"])
+        return {"reproduced": bool(d), "detail": "\n".join(d), "sig": sig, "harness": None,
+                "trace_sha": b["res"].get("trace_sha")}
+    if oracle == "self":
+        j = doc["run"]
+        jid = orch.submit(j["hashseed"], j["fn"], j["args"])
+        res = orch.run_all()[jid][1]
+        if not res.get("ok"):
+            return {"reproduced": False, "detail": "", "sig": "harness", "harness": res.get("err")}
+        orc = res["res"].get("oracles", {})
+        msgs = []
+        first_kind = None
+        for name, v in orc.items():
+            for m in (v if isinstance(v, list) else [v]):
+                msgs.append("%s: %s" % (name, m))
+        if res["res"].get("exit") not in (0, None) and doc.get("expect_exit0", True):
+            msgs.append("exit %s\n%s" % (res["res"]["exit"], res["res"].get("log_tail", "")))
+        import re
+        sig = re.sub(r"\d+(\.\d+)?|\br\w+", "N", msgs[0].split(": ", 2)[-1])[:40] if msgs else "none"
+        return {"reproduced": bool(msgs), "detail": "\n".join(str(m) for m in msgs), "sig": sig, "harness": None,
+                "trace_sha": res["res"].get("trace_sha")}
+    if oracle and oracle.startswith("module:"):
+        import importlib
+        mod = importlib.import_module("simkit." + oracle.split(":", 1)[1])
+        reproduced, detail = mod.replay(doc, orch)
+        return {"reproduced": reproduced, "detail": detail, "sig": "module", "harness": None}
+    return {"reproduced": False, "detail": "", "sig": "unknown", "harness": "unknown oracle in replay file: %r" % oracle}
+
+
 def main(argv=None):
     argv = argv or sys.argv[1:]
     path = argv[0]
     with open(path) as f:
         doc = json.load(f)
     from simkit.orch import Orchestrator
-    oracle = doc.get("oracle")
     prop = doc.get("property")
-    reproduced = False
-    detail = ""
     with Orchestrator(lanes=4) as orch:
-        if oracle == "golden_equality":
-            g = dict(doc["golden"]); g["args"] = dict(g["args"], want=["files"])
-            r = dict(doc["run"]); r["args"] = dict(r["args"], want=["files", "trace"])
-            i1 = orch.submit(g["hashseed"], g["fn"], g["args"])
-            i2 = orch.submit(r["hashseed"], r["fn"], r["args"])
-            out = orch.run_all()
-            a, b = out[i1][1], out[i2][1]
-            if not (a.get("ok") and b.get("ok")):
-                print("HARNESS-ERROR", a.get("err"), b.get("err"))
-                return 2
-            from simkit import outputs
-            fa = {k: v.encode() for k, v in a["res"]["files"].items()}
-            fb = {k: v.encode() for k, v in b["res"]["files"].items()}
-            d = outputs.diff(fa, fb)
-            if a["res"]["exit"] != b["res"]["exit"]:
-                d.append("exit codes differ: %s vs %s" % (a["res"]["exit"], b["res"]["exit"]))
-                d.append(b["res"].get("log_tail", ""))
-            reproduced = bool(d)
-            detail = "\n".join(d)
-            exp = (doc.get("expected") or {}).get("trace_sha256")
-            if exp:
-                print("trace sha256: recorded %s, replayed %s -> %s" % (exp[:16], b["res"]["trace_sha"][:16],
-                                                                        "same" if exp == b["res"]["trace_sha"] else "DIFFERENT"))
-        elif oracle == "self":
-            j = doc["run"]
-            res = run_job(orch, j)
-            if not res.get("ok"):
-                print("HARNESS-ERROR", res.get("err"))
-                return 2
-            orc = res["res"].get("oracles", {})
-            msgs = []
-            for name, v in orc.items():
-                for m in (v if isinstance(v, list) else [v]):
-                    msgs.append("%s: %s" % (name, m))
-            if res["res"].get("exit") not in (0, None) and doc.get("expect_exit0", True):
-                msgs.append("exit %s\n%s" % (res["res"]["exit"], res["res"].get("log_tail", "")))
-            reproduced = bool(msgs)
-            detail = "\n".join(str(m) for m in msgs)
-        elif oracle and oracle.startswith("module:"):
-            import importlib
-            mod = importlib.import_module("simkit." + oracle.split(":", 1)[1])
-            reproduced, detail = mod.replay(doc, orch)
-        else:
-            print("unknown oracle in replay file: %r" % oracle)
-            return 2
-    if reproduced:
+        r = evaluate(doc, orch)
+    if r.get("harness"):
+        print("HARNESS-ERROR", r["harness"])
+        return 2
+    exp = (doc.get("expected") or {}).get("trace_sha256")
+    if exp and r.get("trace_sha"):
+        print("trace sha256: recorded %s, replayed %s -> %s" % (exp[:16], r["trace_sha"][:16],
+                                                                "same" if exp == r["trace_sha"] else "DIFFERENT"))
+    if r["reproduced"]:
         print("VIOLATION property=%s replay=%s" % (prop, path))
-        print(detail[:6000])
+        print(r["detail"][:6000])
         return 1
     print("not reproduced: property=%s replay=%s" % (prop, path))
     return 0
